@@ -256,8 +256,14 @@ def exec_checks(ctx, exe):
         exp = {}
         for c in range(256):
             exp[("exit", str(c))] = "ok %d" % c
-        for s in (1, 2, 3, 6, 9, 10, 12, 14, 15):   # 13: SIGPIPE is ignored by the harness main and that is inherited
+        for s in (1, 2, 3, 6, 9, 10, 12, 13, 14, 15):
             exp[("signal", str(s))] = "ok %d" % (128 + s)
+        exp[("pipeline", "0")] = "ok 0"
+        exp[("childpipe", "0")] = "ok 141"      # sh killed by SIGPIPE on its first echo: default disposition in the child
+        exp[("netaddr", "truthy")] = "core/socket-address"
+        exp[("netaddr", "nil")] = "core/socket-address"
+        exp[("netaddr", "stream")] = "core/socket-address"
+        exp[("netaddr", "multi")] = "array"
         exp[("x", "0")] = "ok 0"
         exp[("x", "3")] = "err command failed with non-zero exit code 3"
         for c in (0, 1, 77, 128, 255):
@@ -269,7 +275,11 @@ def exec_checks(ctx, exe):
         exp[("concurrent", "@[(0")] = "5) (1 6) (2 7)]"
         n = len(exp)
         for k, v in exp.items():
-            if got.get(k) != v:
+            if got.get(k) != v and k[0] == "netaddr":
+                fails.append(("net-address-3-args-reads-past-argv",
+                              "(net/address host port type) with exactly 3 arguments returned %r (expected %s): cfun_net_sockaddr reads argv[3], "
+                              "one slot past its arguments, and takes a stale stack value for `multi`" % (got.get(k), v)))
+            elif got.get(k) != v:
                 fails.append(("exit-status:%s %s" % k, "os/execute / os/proc-wait: case %s %s reported %r, expected %r" % (k[0], k[1], got.get(k), v)))
         if rc != 0 or b"DONE" not in out:
             fails.append(("exit-status:script", "exec.janet did not finish: rc=%s %s" % (rc, err.decode(errors="replace")[-300:])))
